@@ -7,6 +7,7 @@
 //! not judge anything: all judging is done by TLC (spec/RouterTrace.tla).
 //!
 //! usage: router --out TRACE [--cases FILE] [--random N] [--seed S] [--cases-out FILE]
+//! (of the N random cases every fifth is a long single path, see `gen_long_case`)
 //!
 //! Case input (one JSON object per line; -1 = none):
 //!   {"n","payer","payee","chans":[{"scid","a","b","cap"(sats),"ab":POL,"ba":POL}],
@@ -619,10 +620,9 @@ fn gen_random_case(r: &mut StdRng) -> Value {
 	};
 	let max_paths = pick(r, &[1u64, 1, 2, 3, 10, 10]);
 	let max_len = if r.gen_bool(0.75) { 19 } else { r.gen_range(1..5) };
-	let mut failed = Vec::new();
-	if r.gen_bool(0.15) && !chans.is_empty() {
-		failed.push(chans[r.gen_range(0..chans.len())]["scid"].clone());
-	}
+	// a retry: previously failed channels, drawn from announced channels as well as from the
+	// channels only the caller knows (unannounced first hops, route-hint hops)
+	let failed = gen_failed(r, &chans, &fh_list, &hints, 0.22);
 	let mpp_mode = r.gen_bool(0.35);
 	let mut mpp = r.gen_bool(0.6);
 	let mut max_paths = max_paths;
@@ -664,6 +664,169 @@ fn gen_random_case(r: &mut StdRng) -> Value {
 		shape_boundary(r, &mut case);
 	}
 	case
+}
+
+fn gen_failed(r: &mut StdRng, chans: &[Value], fh_list: &[Value], hints: &[Value], p: f64) -> Vec<Value> {
+	let mut failed = Vec::new();
+	if !r.gen_bool(p) {
+		return failed;
+	}
+	let public: Vec<Value> = chans.iter().map(|c| c["scid"].clone()).collect();
+	let mut private: Vec<Value> = Vec::new();
+	for f in fh_list.iter() {
+		if !public.contains(&f["scid"]) {
+			private.push(f["scid"].clone());
+		}
+	}
+	for h in hints.iter() {
+		for hop in h.as_array().unwrap() {
+			private.push(hop["scid"].clone());
+		}
+	}
+	let all: Vec<Value> = public.iter().chain(private.iter()).cloned().collect();
+	if all.is_empty() {
+		return failed;
+	}
+	if !private.is_empty() && r.gen_bool(0.5) {
+		failed.push(private[r.gen_range(0..private.len())].clone());
+	} else {
+		failed.push(all[r.gen_range(0..all.len())].clone());
+	}
+	if r.gen_bool(0.25) {
+		let x = all[r.gen_range(0..all.len())].clone();
+		if !failed.contains(&x) {
+			failed.push(x);
+		}
+	}
+	failed
+}
+
+/// Long single paths (4-6 hops, optionally one parallel channel): every forward hop is usable with
+/// random base / proportional fees; one to three hop positions get an htlc_minimum or htlc_maximum
+/// at / next to / a multiple of the amount that hop would carry (input shaping as in
+/// `shape_boundary`, not an oracle), so that the router's "raise to the htlc_minimum" logic is hit
+/// at every hop position with proportional fees on the other hops. The first channel may be an
+/// (un)announced first hop, the last one a route-hint hop.
+fn gen_long_case(r: &mut StdRng) -> Value {
+	let hops: usize = pick(r, &[4usize, 4, 5, 5, 6]);
+	let n = hops + 1;
+	let payee = hops;
+	let amt: u64 = match r.gen_range(0..5) {
+		0 => r.gen_range(2..2000),
+		1 | 2 => r.gen_range(10_000..200_000),
+		3 => r.gen_range(500_000..2_000_000),
+		_ => pick(r, &[1000u64, 100_000, 1_000_000, 2_000_000]),
+	};
+	let feeclass = r.gen_range(0..4);
+	let mut fwd: Vec<Value> = Vec::new();
+	for _ in 0..hops {
+		let fc = if r.gen_bool(0.7) { feeclass } else { r.gen_range(0..4) };
+		let (base, prop): (u64, u64) = match fc {
+			0 => (0, 0),
+			1 => (r.gen_range(0..2000), r.gen_range(0..1000)),
+			2 => (0, pick(r, &[1u64, 1000, 100_000, 250_000, 300_000])),
+			_ => (pick(r, &[0u64, 1, 1000, 50_000]), pick(r, &[0u64, 100, 10_000, 100_000, 300_000])),
+		};
+		fwd.push(json!({"has": true, "en": true, "base": base, "prop": prop,
+			"cltv": pick(r, &[0u64, 6, 18, 40, 40, 72, 144]), "min": pick(r, &[0u64, 1, 1, 1000]),
+			"max": 1_000_000_000u64}));
+	}
+	// amounts the hops carry for `amt` and for the router's search value 3 * amt
+	let needs = |fwd: &Vec<Value>, v: u64| -> Vec<u64> {
+		let mut need = vec![0u64; fwd.len()];
+		let mut a = v;
+		for i in (0..fwd.len()).rev() {
+			need[i] = a;
+			a += fee_of(a, fwd[i]["base"].as_u64().unwrap(), fwd[i]["prop"].as_u64().unwrap());
+		}
+		need
+	};
+	let need1 = needs(&fwd, amt);
+	let need3 = needs(&fwd, 3 * amt);
+	let nfeat = pick(r, &[1usize, 1, 2, 2, 3]);
+	for _ in 0..nfeat {
+		let i = r.gen_range(0..hops);
+		if r.gen_bool(0.7) {
+			let v = match r.gen_range(0..8) {
+				0 => around(r, need1[i]),
+				1 => 2 * amt,
+				2 => 2 * need1[i],
+				3 => around(r, need3[i]),
+				4 => around(r, 3 * amt),
+				5 => r.gen_range(need1[i]..=need3[i]),
+				6 => need1[i] + r.gen_range(1..1000),
+				_ => r.gen_range(amt..=3 * amt),
+			};
+			fwd[i]["min"] = json!(v);
+		} else {
+			let v = match r.gen_range(0..6) {
+				0 => around(r, need1[i]),
+				1 => need1[i] + r.gen_range(0..3000),
+				2 => 2 * need1[i],
+				3 => around(r, need3[i]),
+				4 => r.gen_range(need1[i]..=need3[i]),
+				_ => around(r, 4 * need1[i]),
+			};
+			fwd[i]["max"] = json!(v.max(1));
+		}
+	}
+	for p in fwd.iter_mut() {
+		if p["min"].as_u64().unwrap() > p["max"].as_u64().unwrap() && r.gen_bool(0.8) {
+			p["max"] = json!(1_000_000_000u64);
+		}
+	}
+	let mut chans: Vec<Value> = Vec::new();
+	for i in 0..hops {
+		let ba = gen_policy(r, amt, feeclass.min(2));
+		chans.push(json!({"scid": i + 1, "a": i, "b": i + 1, "cap": -1, "ab": fwd[i].clone(), "ba": ba}));
+	}
+	if r.gen_bool(0.3) {
+		// one parallel channel next to a hop of the line
+		let i = r.gen_range(0..hops);
+		let ab = gen_policy(r, amt, feeclass.min(2));
+		let ba = gen_policy(r, amt, feeclass.min(2));
+		chans.push(json!({"scid": hops + 1, "a": i, "b": i + 1, "cap": -1, "ab": ab, "ba": ba}));
+	}
+	// first hops: the payer's channels as ChannelDetails; the line's first channel may be unannounced
+	let fh_some = r.gen_bool(0.3);
+	let mut fh_list = Vec::new();
+	if fh_some {
+		let unannounced = r.gen_bool(0.5);
+		for ch in chans.iter() {
+			if ch["a"] == 0 {
+				let near = around(r, need1[0]);
+				let limit = pick(r, &[1_000_000_000u64, 1_000_000_000, need1[0], need3[0], near]);
+				let scid = if unannounced && ch["scid"] == 1 { json!(701) } else { ch["scid"].clone() };
+				fh_list.push(json!({"scid": scid, "peer": 1, "min": pick(r, &[0u64, 0, 1, need1[0]]), "limit": limit.max(1)}));
+			}
+		}
+		if unannounced {
+			chans.retain(|c| c["scid"] != 1);
+		}
+	}
+	// the last channel as a route-hint hop instead of an announced channel
+	let mut hints = Vec::new();
+	if r.gen_bool(0.25) {
+		let p = fwd[hops - 1].clone();
+		let (mn, mx) = (p["min"].as_i64().unwrap(), p["max"].as_i64().unwrap());
+		hints.push(json!([{"src": hops - 1, "scid": 900, "base": p["base"], "prop": p["prop"], "cltv": p["cltv"],
+			"min": mn, "max": if mx == 1_000_000_000 { -1 } else { mx }}]));
+		chans.retain(|c| c["scid"].as_u64().unwrap() != hops as u64);
+	}
+	let failed = gen_failed(r, &chans, &fh_list, &hints, 0.08);
+	let mpp = r.gen_bool(0.75);
+	let max_fee: i64 = match r.gen_range(0..8) {
+		0 => (amt / 100 + 50_000) as i64,
+		1 => (3 * amt) as i64,
+		_ => -1,
+	};
+	json!({"n": n, "payer": 0, "payee": payee, "chans": chans,
+		"fh": {"some": fh_some, "list": fh_list}, "hints": hints, "amt": amt, "max_fee": max_fee,
+		"max_cltv": if r.gen_bool(0.85) { 1008 } else { 42 + r.gen_range(0..400) },
+		"max_paths": pick(r, &[1u64, 2, 3, 3, 10]),
+		"max_len": if r.gen_bool(0.9) { 19 } else { r.gen_range(3..7) }, "final_cltv": pick(r, &[18u64, 42, 42, 144]),
+		"mpp": mpp, "sat": pick(r, &[0u64, 1, 2, 2, 2, 3]), "failed": failed,
+		"scorer": {"params": r.gen_range(0..3), "seed": if r.gen_bool(0.6) { 0 } else { r.gen_range(1..u32::MAX as u64) }}})
 }
 
 /// Input shaping (not an oracle): pick one simple payer->payee walk over the *requested* channels,
@@ -814,8 +977,13 @@ fn main() {
 		}
 	}
 	let mut rng = StdRng::seed_from_u64(seed);
+	let mut rng_long = StdRng::seed_from_u64(seed ^ 0x4C4F_4E47);
 	for k in 0..nrand {
-		cases.push((format!("rand{}", k + 1), gen_random_case(&mut rng)));
+		if k % 5 == 4 {
+			cases.push((format!("long{}", k + 1), gen_long_case(&mut rng_long)));
+		} else {
+			cases.push((format!("rand{}", k + 1), gen_random_case(&mut rng)));
+		}
 	}
 	let (mut ok, mut err, mut panics, mut multi_hop, mut multi_path) = (0usize, 0usize, 0usize, 0usize, 0usize);
 	for (k, (id, case)) in cases.iter().enumerate() {
